@@ -407,12 +407,45 @@ class EvalMixin:
         return self.seq_map(st, n, g, it, fr)
 
     def comp_nested(self, st, n, kind):
-        raise OutsideSubset("nested comprehension")
+        """[elt for xs in A for x in B(xs)] == flatten([[elt for x in B(xs)] for xs in A]); the flattening of a symbolic
+        list of lists is the recursive concatenation flat_pairs / flat_refs of spec/builtins.py"""
+        if kind != "list" or len(n.generators) != 2:
+            raise OutsideSubset("nested comprehension")
+        inner = ast.ListComp(elt=n.elt, generators=[n.generators[1]])
+        outer = ast.ListComp(elt=inner, generators=[n.generators[0]])
+        ast.copy_location(inner, n)
+        ast.copy_location(outer, n)
+        xss = self.comprehension(st, outer, "list")
+        items = self.concrete_items(st, xss)
+        if items is not None:
+            out = []
+            for xs in items:
+                sub = self.concrete_items(st, self.force(st, xs) if not st.spec else xs)
+                if sub is None:
+                    raise OutsideSubset("flattening a concrete list with a symbolic member")
+                out += list(sub)
+            return st.alloc(HeapObj("list", "list", items=out))
+        return self.seq_flatten(st, xss)
+
+    def seq_flatten(self, st, xss):
+        if not (isinstance(xss, Z) and xss.t.kind == "seq" and xss.t.args[0].kind == "seq"):
+            raise OutsideSubset(f"flattening {xss!r}")
+        et = xss.t.args[0].args[0]
+        if et.kind == "tuple" and len(et.args) == 2 and all(a.kind == "ref" for a in et.args):
+            nm = "flat_pairs"
+        elif et.kind == "ref":
+            nm = "flat_refs"
+        else:
+            raise OutsideSubset(f"flattening a list of lists of {et}")
+        if nm not in self.specs:
+            raise OutsideSubset("spec/builtins.py:" + nm + " missing")
+        r = self.call_spec(st, self.specs[nm], [xss, zint(z3.Length(xss.e))], {})
+        return Z(T("seq", (et,)), r.e)
 
     def seq_map_func(self, st, f, it: Z):
         """map(f, s) over a symbolic sequence (same canonical term as the comprehension [f(x) for x in s])"""
         et = it.t.args[0]
-        xb = z3.Const(f"cx!{et.kind}", et.z3sort() if et.kind != "char" else Int)
+        xb = z3.Const(f"cx!{et.kind}!{len(st.bound)}", et.z3sort() if et.kind != "char" else Int)
         st.spec += 1
         st.bound.append(xb)
         try:
@@ -425,7 +458,7 @@ class EvalMixin:
     def seq_map(self, st, n, g, it: Z, fr):
         """[elt for x in s (if c)] over a symbolic sequence: a canonical map term with pointwise axioms."""
         et = it.t.args[0]
-        xb = z3.Const(f"cx!{et.kind}", et.z3sort() if et.kind != "char" else Int)
+        xb = z3.Const(f"cx!{et.kind}!{len(st.bound)}", et.z3sort() if et.kind != "char" else Int)
         st.frames.append(fr)
         st.spec += 1
         st.bound.append(xb)
@@ -449,6 +482,8 @@ class EvalMixin:
             raise OutsideSubset("tuple-valued comprehension over symbolic data")
         if not isinstance(ev, Z) or not (ev.t.is_smt() or ev.t.kind == "char"):
             raise OutsideSubset(f"comprehension element {ev!r} is not an SMT value")
+        if not conds and ev.e.eq(xb) and ev.e.sort() == it.e.sort().basis():
+            return Z(T("seq", (ev.t,)), it.e)      # [x for x in s] over an immutable sequence value is s
         rs = z3.SeqSort(ev.e.sort())
         # the mapped sequence is an uninterpreted function of the source sequence and of the other free constants of the
         # element expression; the same comprehension text therefore denotes the same term in code and in contracts
@@ -460,8 +495,9 @@ class EvalMixin:
                 fr2.append(c)
         frees = sorted(fr2, key=lambda c: str(c))
         import hashlib
-        canon = z3.substitute(ev.e, *[(c, z3.Const(f"fc!{i}", c.sort())) for i, c in enumerate(frees)]) if frees else ev.e
-        ccanon = [z3.substitute(cnd, *[(c, z3.Const(f"fc!{i}", c.sort())) for i, c in enumerate(frees)]) if frees else cnd for cnd in conds]
+        ren = [(c, z3.Const(f"fc!{i}", c.sort())) for i, c in enumerate(frees)] + [(xb, z3.Const("cx!", xb.sort()))]
+        canon = z3.substitute(ev.e, *ren)
+        ccanon = [z3.substitute(cnd, *ren) for cnd in conds]
         h = hashlib.sha1(repr((canon.sexpr(), tuple(c.sexpr() for c in ccanon), str(it.e.sort()))).encode()).hexdigest()[:10]
         fn = smt.ufunc(f"map.{h}", it.e.sort(), *[c.sort() for c in frees], rs)
         r = fn(it.e, *frees)
